@@ -98,6 +98,8 @@ def arr_subscript(o, idx):
     if len(idx) == 1 and isinstance(idx[0], slice) and idx[0].step == -1 and idx[0].start is None and idx[0].stop is None:
         n = o.shape[0]                                     # x[::-1] along the leading axis
         return SArr(o.shape, lambda ridx: o.get((plus(plus(n, -1), binop_("Sub", 0, ridx[0])),) + tuple(ridx[1:])))
+    if len(idx) == 1 and isinstance(idx[0], SArr) and idx[0].ndim == 1 and is_bool_arr(idx[0]):
+        return filter_rows(o, idx[0])
     for ax, ix in enumerate(idx):
         n = o.shape[ax]
         if isinstance(ix, slice):
@@ -148,6 +150,49 @@ def arr_subscript(o, idx):
     if all(p[0] == "slice" and concrete_int(p[1]) == 0 for p in plan) and len(rshape) == o.ndim and all(sym_eq(a, b) for a, b in zip(rshape, o.shape)):
         return o
     return res
+
+FILTERS = []          # ghost records of boolean-mask selections (assumed library contract, instantiated on demand by contracts)
+def filter_rows(o, mask):
+    """a[mask] with a 1-D boolean mask over the leading axis.  ASSUMED numpy contract: the result holds exactly the rows whose mask is True,
+    in their original order.  n rows; SEL: result row -> source row; INV: source row -> result row.  Instances (ghost lemma calls):
+      sel(j):      0 <= j < n  =>  0 <= SEL(j) < T  and  mask[SEL(j)]
+      mono(j, j'): j < j'      =>  SEL(j) < SEL(j')
+      onto(i):     0 <= i < T and mask[i]  =>  0 <= INV(i) < n and SEL(INV(i)) == i"""
+    k = len(FILTERS); T = o.shape[0]
+    n = z3.Int(f"filter_count!{k}"); SEL = z3.Function(f"filter_sel!{k}", z3.IntSort(), z3.IntSort()); INV = z3.Function(f"filter_inv!{k}", z3.IntSort(), z3.IntSort())
+    mk = lambda i: _b(mask.get((i,))) if is_z3(mask.get((i,))) else z3.BoolVal(bool(mask.get((i,))))
+    rec = {"n": n, "SEL": SEL, "INV": INV, "T": T, "mask": mk,
+           "sel": lambda j: z3.Implies(z3.And(toz3(j) >= 0, toz3(j) < n), z3.And(SEL(toz3(j)) >= 0, SEL(toz3(j)) < toz3(T), mk(SEL(toz3(j))))),
+           "mono": lambda j, j2: z3.Implies(toz3(j) < toz3(j2), SEL(toz3(j)) < SEL(toz3(j2))),
+           "onto": lambda i: z3.Implies(z3.And(toz3(i) >= 0, toz3(i) < toz3(T), mk(toz3(i))), z3.And(INV(toz3(i)) >= 0, INV(toz3(i)) < n, SEL(INV(toz3(i))) == toz3(i))),
+           "side": [n >= 0, n <= toz3(T)]}
+    FILTERS.append(rec); SIDE.extend(rec["side"])
+    return SArr((n,) + tuple(o.shape[1:]), lambda idx: o.get((SEL(toz3(idx[0])),) + tuple(idx[1:])), tag=("filter", k))
+def repeat_rows(a, reps, axis=None):
+    """np.repeat(a, reps, axis=0): every row repeated `reps` times consecutively -> result row k is source row k // reps
+    (expressed with the row-major digits of k in shape (rows, reps), like reshape)"""
+    if axis != 0 or not isinstance(a, SArr) or a.ndim < 1: raise Unsupported("np.repeat pattern")
+    rows = a.shape[0]; cr = concrete_int(reps)
+    if concrete_int(rows) == 1: return SArr((reps,) + tuple(a.shape[1:]), lambda idx: a.get((0,) + tuple(idx[1:])))
+    total = binop_("Mult", rows, reps)
+    return SArr((total,) + tuple(a.shape[1:]), lambda idx: a.get((unravel(idx[0], (rows, reps))[0],) + tuple(idx[1:])))
+def concat_axis1(parts):
+    parts = [from_value(p) for p in parts]
+    if not all(isinstance(p, SArr) and p.ndim == 2 for p in parts): raise Unsupported("hstack ranks")
+    widths = [concrete_int(p.shape[1]) for p in parts]
+    if None in widths: raise Unsupported("hstack with symbolic widths")
+    offs = [0]
+    for w in widths: offs.append(offs[-1] + w)
+    def get(idx):
+        j = concrete_int(idx[1])
+        if j is not None:
+            for k, p in enumerate(parts):
+                if offs[k] <= j < offs[k + 1]: return p.get((idx[0], j - offs[k]))
+            raise PyRaise(_exc("IndexError"), "column")
+        r = parts[-1].get((idx[0], binop_("Sub", idx[1], offs[-2])))
+        for k in range(len(parts) - 2, -1, -1): r = Ite(toz3(idx[1]) < offs[k + 1], parts[k].get((idx[0], binop_("Sub", idx[1], offs[k]))), r)
+        return r
+    return SArr((parts[0].shape[0], offs[-1]), get)
 
 def setitem(o, idx, v):
     """functional update o[idx] = v (numpy in-place store); idx: int or tuple of ints (leading axes)"""
@@ -209,7 +254,11 @@ def unravel(k, shape):
     if key not in _unravel_cache:
         idx = [z3.Int(f"u{len(_unravel_cache)}_{ax}") for ax in range(len(shape))]
         cons = [z3.And(i >= 0, i < toz3(n)) for i, n in zip(idx, shape)] + [toz3(k) == ravel(idx, shape)]
-        _unravel_cache[key] = (tuple(idx), cons); SIDE.extend(cons)
+        # digits exist exactly when 0 <= k < total: the constraints are GUARDED by that range, so that Skolems introduced while evaluating one clause
+        # say nothing (in particular not `total > 0`) in the obligations of another clause
+        guard = z3.And(toz3(k) >= 0, toz3(k) < toz3(prod(list(shape))))
+        cons = [z3.Implies(guard, z3.And(*cons))]
+        _unravel_cache[key] = (tuple(idx), cons, toz3(k), tuple(shape)); SIDE.extend(cons)
     return _unravel_cache[key][0]
 def _mentions_binder(t):
     if z3.is_const(t) and t.decl().kind() == z3.Z3_OP_UNINTERPRETED and t.decl().name().startswith("%b"): return True
@@ -264,6 +313,7 @@ def from_value(x):
 def zeros(shape, dtype=None, fill=0):
     if not isinstance(shape, (tuple, list)): shape = (shape,)
     return SArr(tuple(shape), lambda idx: fill, tag=("zeros",) if concrete_int(fill) == 0 else None)
+NONNEG_ORACLE = [None]          # set per interpreter: expr -> True iff the current path condition implies expr >= 0 (quick solver call)
 def arange(lo, hi=None, step=None, dtype=None):
     if hi is None: lo, hi = 0, lo
     if step not in (None, 1): raise Unsupported("arange step")
@@ -273,7 +323,8 @@ def arange(lo, hi=None, step=None, dtype=None):
         cn = concrete_int(n); n = cn if cn is not None else n
         return SArr((n,), lambda idx: binop_("Add", lo, idx[0]))
     n = binop_("Sub", hi, lo); cn = concrete_int(n)
-    n = max(cn, 0) if cn is not None else z3.simplify(z3.If(toz3(n) < 0, 0, toz3(n)))
+    if cn is None and NONNEG_ORACLE[0] is not None and NONNEG_ORACLE[0](toz3(n)): n = z3.simplify(toz3(n))      # the path condition implies hi >= lo: length hi - lo
+    else: n = max(cn, 0) if cn is not None else z3.simplify(z3.If(toz3(n) < 0, 0, toz3(n)))
     return SArr((n,), lambda idx: binop_("Add", lo, idx[0]) if concrete_int(lo) != 0 else idx[0], tag=("arange", lo))
 def binop_(op, a, b):
     from ..interp import binop
@@ -310,6 +361,7 @@ def concat(parts, axis=0):
     return res
 def hstack(parts):
     parts = [from_value(p) for p in parts]
+    if parts and all(isinstance(p, SArr) and p.ndim == 2 for p in parts): return concat_axis1(parts)      # numpy: hstack joins 2-D arrays column-wise
     return concat(parts, 0)
 def vstack(parts):
     return concat(parts, 0)
